@@ -25,12 +25,12 @@ import (
 // refWalk: the walk `car get-dag` asks the traversal engine for (match-all-recursively, each link
 // once, absent blocks skipped unless strict), run here directly on go-ipld-prime over the blocks the
 // archive holds; returns the engine's load sequence. The engine is a recorded input of the model.
-func refWalk(have map[cid.Cid][]byte, root cid.Cid, strict bool) (loads []cid.Cid, err error) {
+func refWalk(have map[string][]byte, root cid.Cid, strict bool) (loads []cid.Cid, err error) {
 	ls := cidlink.DefaultLinkSystem()
 	ls.TrustedStorage = true
 	ls.StorageReadOpener = func(_ linking.LinkContext, l datamodel.Link) (io.Reader, error) {
 		c := l.(cidlink.Link).Cid
-		d, ok := have[c]
+		d, ok := have[string(c.Hash())] // the read-only blockstore behind get-dag answers by multihash
 		if !ok {
 			if strict {
 				return nil, fmt.Errorf("not found")
@@ -95,9 +95,11 @@ func (g *Gen) getdagCases(o *Out, dir string, thorough bool) {
 	in := filepath.Join(dir, "dag.car")
 	os.WriteFile(in, arch, 0o644)
 	out := filepath.Join(dir, "dagout.bin")
-	have := map[cid.Cid][]byte{}
+	have := map[string][]byte{}
 	for _, b := range bs {
-		have[b.C] = b.D
+		if _, dup := have[string(b.C.Hash())]; !dup { // first section carrying the multihash wins
+			have[string(b.C.Hash())] = b.D
+		}
 	}
 	for _, ver := range []int{1, 2} {
 		strict := g.pick(3) == 0
